@@ -7,7 +7,7 @@ ENTRY = dict(
                 'C28_mutex_inmem_fits (in-memory, shard capacity >= number of distinct lock keys: every owner that was told it holds k and whose recorded TTL has not elapsed IS the holder, hence never two believers). '
                 'REFUTED with vm_compute witnesses reproduced on the real code: C28_mutex_inmem_refuted + C28_lock_self_eviction_refuted (a full shard evicts an unexpired lock), '
                 'C28_release_redis_refuted + C28_release_redis_double_unlock_refuted + C28_mutex_redis_refuted (Redis Unlock deletes by local flag), C28_mutex_redis_ttl_refuted (Redis IsLockedTTL rewrites a foreign TTL before comparing). '
-                'PARTIAL: C28_mutex_inmem_partial (any capacity, runs that evict no unexpired lock entry), C28_mutex_redis_partial and C28_release_redis_partial (runs in which no Unlock/IsLockedTTL touches a live entry of another owner). '
+                'PARTIAL: C28_mutex_inmem_partial (any capacity, runs that evict no unexpired lock entry), C28_mutex_redis_partial and C28_release_redis_partial (runs in which no Unlock/IsLockedTTL touches a live entry of another owner), C28_mutex_redis_polite_partial (the same from a client-side discipline: Unlock/IsLockedTTL only for keys the caller still validly believes to hold, i.e. no unlock after own expiry and no second unlock). '
                 'Tie (K2): scripted interleavings of 2-4 owners over overlapping keys run against cache.NewL2InMemoryCache (shard capacity 1-8 and default, keys forced into chosen shards) and against the Redis adapter + go-redis over an in-process RESP2 stand-in; after EVERY command the answer, the reported owner, the whole lock table with expiries and (Redis) every IsLockOwner flag must equal one outcome of the Coq model; plus an omniscient holder oracle on the implementation and a goroutine stress run per service.'),
     level_note=('Trusted: Coq kernel; the model Locks.v read off the Go code (kept honest by the per-command differential check); ONE SERVICE COMMAND IS ATOMIC (hypothesis of every theorem; '
                 'real concurrency is only sampled by the stress run); logical time (the in-memory cache reads time.Now(): the harness realises ticks by shifting stored expiries through an add-only hook); '
